@@ -437,6 +437,19 @@ def run(ctx):
     keys = sorted({k for t in _tyrvingTables.values() for k in t} | {k for t in _qkidsTables.values() for k in t})
     nreq = [(k,) for k in keys] + [(k.lower(),) for k in keys] + [(' ' + k + ' ',) for k in keys] + [(k.upper(),) for k in keys]
     nreq = list(dict.fromkeys(nreq))
+    # spellings with white space inside (between the distance and what follows, before a unit), each asked three times
+    # in a row and then once more later: an answer must not depend on the calls before it (a sticky regular expression,
+    # a memo) on either side
+    spaced = []
+    for k in keys:
+        cut = [i for i in range(1, len(k)) if k[i - 1].isdigit() != k[i].isdigit()]
+        for i in cut[:3]:
+            spaced.append((k[:i] + ' ' + k[i:],))
+            spaced.append((k[:i] + '\t' + k[i:],))
+        if len(cut) >= 2:
+            spaced.append((k[:cut[0]] + ' ' + k[cut[0]:cut[1]] + '  ' + k[cut[1]:],))
+    spaced = list(dict.fromkeys(spaced))
+    nreq = nreq + [x for sp in spaced for x in (sp, sp, sp)] + spaced
     direct(ctx, 'normalizeEventCode', nreq, athlib.normalize_event_code, 'norm', 'athlib.normalize_event_code(%r)')
     tr = ty_requests(ctx, _tyrvingTables)
     direct(ctx, 'tyrvingScore', tr, athlib.tyrving_score, 'ty', 'athlib.tyrving_score(%r, %r, %r, %r)')
